@@ -236,7 +236,7 @@ impl Live {
     }
 }
 
-fn start_server(id: &str, rng: &mut Rng, stray_unreal2: bool, ip: IpAddr) -> Option<Live> {
+fn start_server(id: &str, rng: &mut Rng, stray_unreal2: bool, ip: IpAddr, extremes: bool) -> Option<Live> {
     if id == "eco" {
         let st = EcoState::gen(rng);
         let body = st.body(rng, None);
@@ -244,7 +244,24 @@ fn start_server(id: &str, rng: &mut Rng, stray_unreal2: bool, ip: IpAddr) -> Opt
         return Some(Live::Http(p, Some(h)));
     }
     let idx = game_ids().iter().position(|x| *x == id)?;
-    let server: Box<dyn Server> = if stray_unreal2 {
+    let valve_app = match id {
+        "teamfortress2" => Some(440u32),
+        "css" => Some(240),
+        _ => None,
+    };
+    let server: Box<dyn Server> = if let (Some(app), true) = (valve_app, extremes || rng.chance(1, 3)) {
+        // 64-bit identifiers at the edges of what the output formats can carry (2^53, 2^63, 2^64-1)
+        use crate::models::valve::{A2sServer, State};
+        use gamedig::protocols::valve::Engine;
+        let mut st = State::gen(rng, &Engine::new(app), app, 2, 2);
+        st.layout = crate::models::valve::Layout::Source;
+        st.protocol = 17;
+        st.appid16 = app as u16;
+        st.edf = Some(st.edf.unwrap_or(0) | 0x10 | 0x01);
+        st.steam_id = *rng.pick(&[1u64 << 63, u64::MAX, (1 << 53) + 1, i64::MAX as u64, (1u64 << 63) + 1, u64::MAX - 1, (1u64 << 63) + (1 << 10) + 1, 0]);
+        st.game_id = (*rng.pick(&[0u64, 1 << 39, 1 << 40]) << 24) | app as u64;
+        Box::new(A2sServer::new(vec![st.info_message()], vec![st.players_message()], vec![st.rules_message()]))
+    } else if stray_unreal2 {
         let mut st = UState::gen(rng, 2, 3);
         st.num_players = 2;
         let mut rules = st.rules_datagrams(1);
@@ -278,9 +295,11 @@ impl C19 {
             _ => (IpAddr::V4(Ipv4Addr::LOCALHOST), "127.0.0.1".to_string()),
         };
         let game = gamedig::GAMES.get(id).unwrap();
+        // the protocol-specific documents carry the 64-bit identifiers: always drive their edge values there
+        let extremes = mode != "generic" && cx.idx % 3 != 0;
         // 1. the library's own answer to this server
         let mut r1 = base.clone();
-        let Some(live) = start_server(id, &mut r1, stray, lo) else { return cx.inconclusive("cannot start loopback server") };
+        let Some(live) = start_server(id, &mut r1, stray, lo, extremes) else { return cx.inconclusive("cannot start loopback server") };
         let d = Duration::from_secs(2);
         let ts = TimeoutSettings::new(Some(d), Some(d), Some(d), 0).ok();
         let port = live.port();
@@ -301,7 +320,7 @@ impl C19 {
         };
         // 2. the CLI against an identical server
         let mut r2 = base.clone();
-        let Some(live) = start_server(id, &mut r2, stray, lo) else { return cx.inconclusive("cannot start loopback server") };
+        let Some(live) = start_server(id, &mut r2, stray, lo, extremes) else { return cx.inconclusive("cannot start loopback server") };
         let mut cmd = crate::core::framework::wrapped_command(&cli());
         cx.count(&format!("host-form|{}", ["ipv4-literal", "name", "ipv6-literal", "bracketed-ipv6-literal"][if form < 4 { form as usize } else { 0 }]));
         cmd.args(["query", "-g", id, "-i", &host_arg, "-p", &live.port().to_string(), "-f", fmt, "-o", mode, "--read-timeout", "2", "--write-timeout", "2", "--connect-timeout", "2"]);
@@ -390,10 +409,20 @@ impl C19 {
                                 *e = e.replace(['\0', '\u{FFFE}', '\u{FFFF}'], "\u{FFFD}");
                             }
                         }
+                        // leaves as a multiset. Integers must be the same integer digit for digit (a 64-bit identifier
+                        // rounded through a float is a different value); only texts written as floats are compared by value
+                        let canon = |t: &String| -> String {
+                            let is_float_text = t.contains(['.', 'e', 'E']) && !t.contains(|c: char| c.is_alphabetic() && c != 'e' && c != 'E');
+                            match t.parse::<f64>() {
+                                Ok(x) if is_float_text && x.is_finite() => format!("\u{1}float:{:016x}", x.to_bits()),
+                                _ => t.clone(),
+                            }
+                        };
+                        let mut leaves: Vec<String> = leaves.iter().map(canon).collect();
+                        let mut exp: Vec<String> = exp.iter().map(canon).collect();
                         leaves.sort();
                         exp.sort();
-                        // numbers: compare through f64 where both parse
-                        let same = leaves.len() == exp.len() && leaves.iter().zip(&exp).all(|(a, b)| a == b || matches!((a.parse::<f64>(), b.parse::<f64>()), (Ok(x), Ok(y)) if x == y));
+                        let same = leaves == exp;
                         if !same {
                             cx.violation(format!("C19 unfaithful format=xml mode={mode} family={fam}"), || detail(format!("leaf texts differ: {} vs {}", leaves.len(), exp.len())));
                             return;
